@@ -14,7 +14,9 @@ import (
 	"context"
 	"encoding/base64"
 	"encoding/xml"
+	"errors"
 	"fmt"
+	"strconv"
 	"sync"
 
 	"mellium.im/xmlstream"
@@ -231,7 +233,16 @@ func handlePayload(h *Handler, errResp errorResponder, p dataPayload, e xmlstrea
 		}))
 		return err
 	}
-	if p.Seq != conn.seq {
+	if p.seqErr != nil && !errors.Is(p.seqErr, strconv.ErrRange) {
+		// No sequence number at all.
+		_, err := xmlstream.Copy(e, errResp.Error(stanza.Error{
+			Type:      stanza.Cancel,
+			Condition: stanza.BadRequest,
+		}))
+		return err
+	}
+	// A number that does not fit the 16 bit counter is never the expected one.
+	if p.seqErr != nil || p.Seq != conn.seq {
 		_, err := xmlstream.Copy(e, errResp.Error(stanza.Error{
 			Type:      stanza.Cancel,
 			Condition: stanza.UnexpectedRequest,
